@@ -132,6 +132,12 @@ class LineSeam:
                     if isinstance(node, ast.Try) and any(h.type is None or (isinstance(h.type, ast.Name) and h.type.id == "BaseException") for h in node.handlers):
                         for stmt in node.body:
                             g.update(range(stmt.lineno, (stmt.end_lineno or stmt.lineno) + 1))
+                    if isinstance(node, (ast.With, ast.AsyncWith)):
+                        # the header line of a with statement is visited again when the block is left, between the end of the body and
+                        # the call of __exit__: an exception injected by a trace function THERE is outside the protected range (the
+                        # interpreter itself does not deliver asynchronous exceptions at that point), so header lines are no crash points
+                        last = max([node.lineno] + [getattr(it.context_expr, "end_lineno", node.lineno) or node.lineno for it in node.items])
+                        g.update(range(node.lineno, last + 1))
             except Exception:
                 pass
             self._guards[filename] = g
